@@ -73,6 +73,7 @@ def run(tier):
                    dict(module="MC_Aztec.tla", cfg="MC_Aztec.cfg", workers=4, heap="6g"),
                    dict(module="MC_PDF417.tla", cfg="MC_PDF417.cfg", workers=4, heap="6g"),
                    dict(module="MC_PDFDims.tla", cfg="MC_PDFDims.cfg", workers=4)])
+    chk.cov["apalache_PDFRowsLemma"] = vlib.apalache(chk.work, "sym/PDFRowsLemma.tla")
     drive = vlib.build_harness(chk.work)
     jobs = c13_jobs(chk.rng, quick)
     # Aztec exact fits (single lengths / percentages fill a size exactly): a wide sweep asks the real encoder, without pixels, for the automatic
